@@ -26,7 +26,7 @@ func viewWalkExit(c *Ctx) int {
 			name := "rtp.(*" + t + ")." + mn
 			fn := p.Func(name)
 			if fn == nil {
-				r.Fatalf("anchor %s missing", name)
+				missingAnchor(r, name)
 				continue
 			}
 			// the element loop: header block ending in `if cursor < len(...)` with a phi cursor
